@@ -304,8 +304,27 @@ class Program(object):
                 enc = getattr(enc, 'parent', None)
             if enc is not None:
                 return self._name(e, enc, depth + 1, elem, stack)
+            g = self._module_binding(e.id, fd)
+            if g is not None:
+                return {('global', g)}   # module-level mutable object (or something stored in it): shared by all queries
             return {('imm', e)}   # module-level constant / builtin / function
         return out
+
+    def _module_binding(self, name, fd):
+        """module-level statement binding `name` to a mutable container, in the module that contains fd"""
+        mod = fd
+        while mod is not None and not isinstance(mod, ast.Module):
+            mod = getattr(mod, 'parent', None)
+        if mod is None:
+            return None
+        for st in mod.body:
+            if isinstance(st, ast.Assign) and any(isinstance(t, ast.Name) and t.id == name for t in st.targets):
+                v = st.value
+                if isinstance(v, (ast.Dict, ast.List, ast.Set, ast.ListComp, ast.DictComp, ast.SetComp)):
+                    return st
+                if isinstance(v, ast.Call) and (dotted(v.func) or '') in ('dict', 'list', 'set', 'defaultdict', 'OrderedDict', 'collections.defaultdict', 'collections.OrderedDict', 'Map', 'Set', 'Array', 'Object', 'WeakMap'):
+                    return st
+        return None
 
     def _target_hit(self, t, name):
         """None if name is not bound by target t; otherwise the number of element levels (0 = whole value, 1 = element of a tuple)"""
